@@ -250,17 +250,23 @@ Proof.
   unfold exec_add, spec_add. destruct (add_builders s a _); [apply annotate_all_steps|reflexivity].
 Qed.
 
-Lemma rm_missing s a : get_ann s a = None -> rm_annotation s (ByHandle a) = (s, OErr).
+Lemma rm_item_spec s it : rm_item s it = spec_rm s it.
 Proof.
-  intros H. unfold rm_annotation, ref_ann, resolve_ref. unfold get_ann in H. rewrite H. reflexivity.
+  unfold rm_item, spec_rm. destruct it as [a|d x|d k|r|d|r b e]; cbn [rm_op item_live]; try reflexivity.
+  - destruct (get_ann s a) eqn:E; [reflexivity|].
+    cbn [step]. unfold rm_annotation, ref_ann, resolve_ref. unfold get_ann in E. rewrite E. reflexivity.
+  - destruct (get_res s r) eqn:E; [reflexivity|].
+    cbn [step]. unfold rm_resource, ref_res, resolve_ref. unfold get_res in E. rewrite E. reflexivity.
+  - destruct (get_set s d) eqn:E; [reflexivity|].
+    cbn [step]. unfold rm_dataset, ref_set, resolve_ref. unfold get_set in E. rewrite E. reflexivity.
 Qed.
 
 Theorem sem_delete s x sub : exec_delete s x sub (sem s [] sub) = spec_delete s x sub.
 Proof.
-  unfold exec_delete, spec_delete. destruct (delete_handles x sub (sem s [] sub)) as [hs|]; [|reflexivity].
-  f_equal. revert s. induction hs as [|a hs IH]; intros s; cbn [fold_left]; [reflexivity|].
-  cbn [step]. destruct (get_ann s a) eqn:E; [apply IH|].
-  rewrite (rm_missing _ _ E). cbn [fst]. apply IH.
+  unfold exec_delete, spec_delete. destruct (delete_items x sub (sem s [] sub)) as [its|]; [|reflexivity].
+  destruct (existsb is_text_item its); [reflexivity|].
+  f_equal. revert s. induction its as [|it its IH]; intros s; cbn [fold_left]; [reflexivity|].
+  rewrite rm_item_spec. apply IH.
 Qed.
 
 (** * However evaluated: the reverse indices give what the filter gives (reachable stores).
